@@ -1,4 +1,4 @@
-"""G2 + G7 for C11: the tables the `[[...]]` lookup and the URL rule consist of,
+r"""G2 + G7 for C11: the tables the `[[...]]` lookup and the URL rule consist of,
 regenerated from the working tree on every run and written to
 lean/FordModel/Generated/C11.lean.
 
@@ -17,6 +17,15 @@ lean/FordModel/Generated/C11.lean.
                  the summary ("none" when absent), the argument bound to `get_page_tree`'s `output_dir`
   pagePathRoot   (ast, ford/pagetree.py `PageNode.__init__`) the root of `output_path = <root> / "page" /
                  self.path.parent`, the location a static page's text is converted at
+  linkRe         (round 3) `FordLinkProcessor.LINK_RE`, parsed with Python's own regex parser (comments and
+                 layout of the verbose pattern vanish) and dumped in a canonical form (a list of tokens); when the `name` group has
+                 the shape `\w+ (?: <sep> \w+ )?` or `...)*` its tail is replaced by the marker NAMETAIL and
+                 described by linkNameSeps (the separator characters) and linkNameMany (`*` instead of `?`) -
+                 the two parameters of the model's tokenizer, so that a repaired pattern that admits more
+                 separators (file names with `-` / several dots) is followed without touching the model
+  linkReFlags    the flags of the compiled pattern
+  linkHandle     (ast) what `getCompiledRegExp` returns and what `handleMatch` returns (element, start, end)
+  linkFindParams the parameter names of `Project.find`, which receives `**m.groupdict()`
 """
 import ast
 import inspect
@@ -115,7 +124,7 @@ def extract():
         raise ValueError("documented kind lists unexpectedly short")
     sites = conversion_sites()
     return {
-        **sites,
+        **sites, **link_pattern(),
         "linkTypes": link_types, "sublinkTypes": sublink_types, "childrenOrder": order,
         "nonListChildren": non_list, "getDirOwner": owner,
         "dirAlways": expand(gd[0][1]), "dirIfParent": expand(gd[1][1]), "dirParents": expand(gd[2][1]),
@@ -197,11 +206,126 @@ def conversion_sites():
     }
 
 
+def _rx_dump(items, names):
+    """canonical text of a parsed regular expression (re._parser.SubPattern)"""
+    try:
+        import re._parser as sp
+    except ImportError:  # Python < 3.11
+        import sre_parse as sp
+    out = []
+    for op, av in items:
+        o = str(op)
+        if o == "LITERAL":
+            out.append(f"lit({chr(av)})")
+        elif o == "NOT_LITERAL":
+            out.append(f"notlit({chr(av)})")
+        elif o == "ANY":
+            out.append("any")
+        elif o == "IN":
+            out.append("in[" + " ".join(_rx_set(i) for i in av) + "]")
+        elif o in ("MAX_REPEAT", "MIN_REPEAT", "POSSESSIVE_REPEAT"):
+            lo, hi, sub = av
+            his = "inf" if hi == sp.MAXREPEAT else str(hi)
+            out.append(f"{o.lower()}({lo},{his},{_rx_dump(sub, names)})")
+        elif o == "SUBPATTERN":
+            g, add, dele, sub = av
+            out.append(f"group:{names.get(g, g)}[{add},{dele}]({_rx_dump(sub, names)})")
+        elif o == "BRANCH":
+            out.append("branch(" + " | ".join(_rx_dump(b, names) for b in av[1]) + ")")
+        elif o == "AT":
+            out.append(f"at({av})")
+        elif o in ("ASSERT", "ASSERT_NOT"):
+            out.append(f"{o.lower()}({av[0]},{_rx_dump(av[1], names)})")
+        elif o == "GROUPREF":
+            out.append(f"ref({av})")
+        else:
+            out.append(f"{o}({av!r})")
+    return "seq(" + " ".join(out) + ")"
+
+
+def _rx_set(item):
+    op, av = item
+    o = str(op)
+    if o == "LITERAL":
+        return f"lit({chr(av)})"
+    if o == "CATEGORY":
+        return str(av).lower()
+    if o == "RANGE":
+        return f"range({chr(av[0])}-{chr(av[1])})"
+    if o == "NEGATE":
+        return "negate"
+    return f"{o}({av!r})"
+
+
+def _is_word_plus(item):
+    return (str(item[0]) == "MAX_REPEAT" and item[1][0] == 1 and str(item[1][1]) == "MAXREPEAT"
+            and [(str(o), str(a)) for o, a in item[1][2]] == [("IN", "[(CATEGORY, CATEGORY_WORD)]")])
+
+
+def link_pattern():
+    """`FordLinkProcessor.LINK_RE` and how the inline processor uses it."""
+    try:
+        import re._parser as sp
+    except ImportError:  # Python < 3.11
+        import sre_parse as sp
+    common.import_ford()
+    import ford._markdown as fm
+    import ford.fortran_project as fp
+
+    proc = getattr(fm, "FordLinkProcessor", None)
+    rx = getattr(proc, "LINK_RE", None)
+    if rx is None or not hasattr(rx, "pattern"):
+        raise ValueError("ford._markdown.FordLinkProcessor.LINK_RE (compiled pattern) not found")
+    parsed = sp.parse(rx.pattern, rx.flags)
+    names = {v: k for k, v in parsed.state.groupdict.items()}
+    items = list(parsed)
+    seps, many, recognised = ["."], False, False
+    for i, (op, av) in enumerate(items):
+        if str(op) == "SUBPATTERN" and names.get(av[0]) == "name":
+            sub = list(av[3])
+            if len(sub) == 2 and _is_word_plus(sub[0]) and str(sub[1][0]) == "MAX_REPEAT":
+                lo, hi, tail = sub[1][1]
+                tail = list(tail)
+                if lo == 0 and (hi == 1 or hi == sp.MAXREPEAT) and len(tail) == 2 and _is_word_plus(tail[1]):
+                    sop, sav = tail[0]
+                    cs = None
+                    if str(sop) == "LITERAL":
+                        cs = [chr(sav)]
+                    elif str(sop) == "IN" and all(str(o) == "LITERAL" for o, _ in sav):
+                        cs = [chr(a) for _, a in sav]
+                    if cs:
+                        seps, many, recognised = cs, hi != 1, True
+                        items[i] = (op, (av[0], av[1], av[2], [sub[0], ("NAMETAIL", None)]))
+    skeleton = _rx_dump(items, names)
+    flags = sorted(f.name for f in re.RegexFlag if f.name and rx.flags & f.value and bin(f.value).count("1") == 1)
+    # use of the pattern by the inline processor
+    tree = ast.parse((common.REPO / "ford" / "_markdown.py").read_text())
+    cls = _cls(tree, "FordLinkProcessor")
+    rets = {}
+    for fn_name in ("getCompiledRegExp", "handleMatch"):
+        fn = _fn(cls, fn_name)
+        r = [n for n in ast.walk(fn) if isinstance(n, ast.Return)]
+        if len(r) != 1:
+            raise ValueError(f"FordLinkProcessor.{fn_name}: expected exactly one return")
+        rets[fn_name] = ast.unparse(r[0].value)
+    import inspect as _inspect
+    params = [p for p in _inspect.signature(fp.Project.find).parameters if p != "self"]
+    return {
+        "linkRe": skeleton.split(" "), "linkNameSeps": seps, "linkNameMany": many, "linkNameRecognised": recognised,
+        "linkReFlags": flags, "linkHandle": rets["getCompiledRegExp"] + " ; " + rets["handleMatch"],
+        "linkFindParams": params, "linkGroups": [names[k] for k in sorted(names)],
+    }
+
+
 SITE_KEYS = ("mdBaseUrl", "projDocsPath", "summaryPath", "pageTreeRoot", "pagePathRoot")
 
 
 def lstr(s):
     return '"' + s.replace("\\", "\\\\").replace('"', '\\"') + '"'
+
+
+def lchar(c):
+    return f"'{c}'" if (33 <= ord(c) < 127 and c not in "'\\") else f"Char.ofNat {ord(c)}"
 
 
 def translate():
@@ -216,8 +340,14 @@ def translate():
     for key in ("childrenOrder", "nonListChildren", "dirAlways", "dirIfParent", "dirParents", "anchorClasses",
                 "docComponentKinds", "docItemKinds"):
         L.append(f"def {key} : List String := [" + ", ".join(lstr(a) for a in t[key]) + "]\n")
-    for key in SITE_KEYS:
+    for key in SITE_KEYS + ("linkHandle",):
         L.append(f"def {key} : String := {lstr(t[key])}\n")
+    L.append("def linkRe : List String := [\n  " + ",\n  ".join(lstr(a) for a in t["linkRe"]) + "]\n")
+    for key in ("linkReFlags", "linkFindParams", "linkGroups"):
+        L.append(f"def {key} : List String := [" + ", ".join(lstr(a) for a in t[key]) + "]\n")
+    L.append("def linkNameSeps : List Char := [" + ", ".join(lchar(c) for c in t["linkNameSeps"]) + "]\n")
+    L.append(f"def linkNameMany : Bool := {'true' if t['linkNameMany'] else 'false'}\n")
+    L.append(f"def linkNameRecognised : Bool := {'true' if t['linkNameRecognised'] else 'false'}\n")
     L.append("end Ford.Generated.C11\n")
     common.write_if_changed(common.LEAN / "FordModel" / "Generated" / "C11.lean", "\n".join(L))
     return t
